@@ -668,6 +668,23 @@ func checkFilterStage(p *Prog, r *Report) {
 			}
 			nRet++
 			made := false
+			// a bypass is harmless exactly when there is nothing to exclude: the path has established
+			// that the exclusion container is nil
+			noContainer := false
+			for _, f := range s.Facts {
+				for _, side := range factOperands(f) {
+					if u, isU := s.Resolve(side).(*ssa.UnOp); isU {
+						if _, fld, isF := fieldLoad(u); isF && fld == "excludeIPs" {
+							if k, isNil := s.NilFact(u); k && isNil {
+								noContainer = true
+							}
+						}
+					}
+				}
+			}
+			if noContainer {
+				continue
+			}
 			for _, o := range p.Origins(s.Resolve(s.Exit.(*ssa.Return).Results[0])) {
 				if mc, isMC := o.(*ssa.MakeChan); isMC && mc.Parent() == fn {
 					made = true
@@ -786,4 +803,12 @@ func checkFilterLoop(p *Prog, r *Report, g *ssa.Function) {
 	if !(seen["covered"] && seen["uncovered"] && seen["error"]) {
 		r.Viol("C02.R4", FuncName(g)+"/cases", pos, "the filter loop distinguishes covered / not covered / container error", fmt.Sprint(seen))
 	}
+}
+
+// factOperands: the operands of a comparison fact.
+func factOperands(f Fact) []ssa.Value {
+	if b, ok := f.Cond.(*ssa.BinOp); ok {
+		return []ssa.Value{b.X, b.Y}
+	}
+	return nil
 }
